@@ -91,7 +91,7 @@ Section InterpSrcThm.
       snd (Nat.iter k extrapolate_both_src (S (S m), y)) i = pad_x k (S (S m)) y i.
   Proof.
     induction k as [|k IH]; intros m y.
-    - cbn [Nat.iter fst snd]. split; [lia|]. intros i Hi. reflexivity.
+    - change (Nat.iter 0 extrapolate_both_src (S (S m), y)) with (S (S m), y). cbn [fst snd]. split; [lia|]. intros i Hi. reflexivity.
     - rewrite Nat.iter_succ_r. destruct (extrapolate_both_matches m y) as [L P].
       destruct (extrapolate_both_src (S (S m), y)) as [n2 y2]. cbn [fst snd] in L, P. subst n2.
       destruct (IH (S (S m)) y2) as [L2 P2]. split; [rewrite L2; lia|].
